@@ -4,6 +4,8 @@ import (
 	"fmt"
 	"time"
 
+	"verifharness/ref"
+
 	"github.com/ucan-wg/go-ucan/pkg/command"
 	"github.com/ucan-wg/go-ucan/pkg/policy"
 	"github.com/ucan-wg/go-ucan/token"
@@ -19,7 +21,7 @@ func init() {
 	register(&mon.Prop{
 		ID:    "C04",
 		Level: "exploration",
-		Rule: "A (pure, exhaustive over a grid): delegations and invocations built with every combination of absent/present nbf/exp from {now-10y, now-1d, now-1h, now+1h, now+1d, now+10y, 2^53-1 s (exp/nbf via absolute option)} incl. exp<nbf, as constructed and after seal/unseal; each token probed with IsValidAt at b+{-100y,-1h,-1s,-(1s-1ns),-1us,-1ns,+1ns,+1us,+(1s-1ns),+1s,+1h,+100y} around each reported bound b; instants strictly inside the reported window must be valid, strictly outside invalid (instants on a bound are recorded, not judged). " +
+		Rule: "A (pure, exhaustive over a grid): delegations and invocations built with every combination of absent/present nbf/exp from {now-10y, now-1d, now-1h, now+1h, now+1d, now+10y, 2^53-1 s (exp/nbf via absolute option)} incl. exp<nbf, as constructed and after seal/unseal, plus tokens decoded from hand-signed payloads whose exp/nbf take every delicate value (0, +-1, +-(2^53-1), the Go zero time, 2^31, year 10000, null/absent; the reported window must be the signed one); each token probed with IsValidAt at b+{-100y,-1h,-1s,-(1s-1ns),-1us,-1ns,+1ns,+1us,+(1s-1ns),+1s,+1h,+100y} around each reported bound b; instants strictly inside the reported window must be valid, strictly outside invalid (instants on a bound are recorded, not judged). " +
 			"B (chains): conforming chains with one or more expired / not-yet-active tokens at every position (invocation, leaf, middle, root), offsets from {-10y,-1d,-1h,+1h,+1d,+10y}; allowed => the invocation and every link are valid. " +
 			"non-trivial = token with >=1 bound (A) / chain with >=1 out-of-window token (B); distinct = (type, bounds, codec state, probe) / (n, offsets vector).",
 		Assumptions: []string{
@@ -31,7 +33,7 @@ func init() {
 		MinEvals:    floor(7000, 50000),
 		MinDistinct: floor(3000, 15000),
 		RequiredCells: func(string) []string {
-			cells := []string{"A/inside", "A/before-nbf", "A/after-exp", "A/on-bound", "A/decoded", "A/constructed", "A/delegation", "A/invocation", "A/exp<nbf", "A/far-future-bound",
+			cells := []string{"A/inside", "A/before-nbf", "A/after-exp", "A/on-bound", "A/decoded", "A/constructed", "A/delegation", "A/invocation", "A/exp<nbf", "A/far-future-bound", "A/decoded-from-signed-payload",
 				"B/all-valid", "B/expired@inv"}
 			for _, pos := range []string{"first", "middle", "last", "only"} {
 				cells = append(cells, "B/expired@"+pos, "B/notyet@"+pos)
@@ -245,6 +247,85 @@ func runC04(w *mon.W) {
 		c04Probe(w, "invocation", "decoded", d, nil, d.Expiration(), desc)
 	}
 
+	// ---- A: tokens decoded from hand-signed payloads carrying every delicate timestamp
+	// (0, +-1, the limits of the 53-bit range, null / absent), which the constructors cannot
+	// all produce: the reported window must be the signed one and IsValidAt must follow it
+	{
+		vals := []*int64{nil, ref.I64(0), ref.I64(1), ref.I64(-1), ref.I64(ref.MaxSafe), ref.I64(-ref.MaxSafe), ref.I64(1700000000), ref.I64(-62135596800), ref.I64(1 << 31), ref.I64(253402300800)}
+		for _, typ := range []string{"dlg", "inv"} {
+			iss := gen.Ed(2)
+			spec := gen.RandomSpec(r, typ, gen.SpecOpts{Issuer: iss, Minimal: true})
+			tk0, err := spec.Build()
+			if err != nil {
+				continue
+			}
+			sealed0, _, err := tk0.ToSealed(iss.Priv)
+			if err != nil {
+				continue
+			}
+			env, _ := ref.DecodeDagCbor(sealed0)
+			info, err := ref.ReadEnvelope(env)
+			if err != nil {
+				continue
+			}
+			for _, ex := range vals {
+				for _, nb := range vals {
+					if typ == "inv" && nb != nil {
+						continue
+					}
+					idx++
+					if !w.Mine(idx) {
+						continue
+					}
+					p := info.Payload
+					exV := ref.Null()
+					if ex != nil {
+						exV = ref.Int(*ex)
+					}
+					p = withField(p, "exp", &exV)
+					if nb != nil {
+						nbV := ref.Int(*nb)
+						p = withField(p, "nbf", &nbV)
+					}
+					re, err := ref.SignEnvelope(iss.Priv, nil, info.Tag, p)
+					if err != nil {
+						continue
+					}
+					b, err := ref.EncodeDagCbor(re)
+					if err != nil {
+						continue
+					}
+					desc := fmt.Sprintf("%s signed payload exp=%v nbf=%v", typ, ptrS(ex), ptrS(nb))
+					t2, _, err := token.FromSealed(b)
+					w.Eval(1)
+					if err != nil {
+						w.Violate("A/in-range-timestamp-rejected/"+typ, fmt.Sprintf("a correctly signed %s with in-range time bounds (exp=%v nbf=%v) is rejected: %v", typ, ptrS(ex), ptrS(nb), err), map[string]any{"token": desc, "sealed": mon.Hex(b)})
+						continue
+					}
+					w.Cover("A/decoded-from-signed-payload")
+					var nbf, exp *time.Time
+					switch x := t2.(type) {
+					case *delegation.Token:
+						nbf, exp = x.NotBefore(), x.Expiration()
+					case *invocation.Token:
+						exp = x.Expiration()
+					}
+					same := func(t *time.Time, v *int64) bool {
+						if t == nil || v == nil {
+							return t == nil && v == nil
+						}
+						return t.Unix() == *v && t.Nanosecond() == 0
+					}
+					if !same(exp, ex) || !same(nbf, nb) {
+						w.Violate("A/reported-window-differs-from-signed/"+typ, fmt.Sprintf("%s: the decoded token reports window [%s, %s]", desc, fmtT(nbf), fmtT(exp)), map[string]any{"token": desc, "sealed": mon.Hex(b)})
+						continue
+					}
+					c04Probe(w, map[string]string{"dlg": "delegation", "inv": "invocation"}[typ], "decoded-signed-payload", t2, nbf, exp, desc)
+				}
+			}
+		}
+	}
+
 	// ---- B: chains
 	total := w.Share(w.Pick(3000, 60000))
 	for it := 0; it < total; it++ {
@@ -337,4 +418,11 @@ func classTime(why string, n int) string {
 func scan(s, f string, p *int) bool {
 	n, _ := fmt.Sscanf(s, f, p)
 	return n == 1
+}
+
+func ptrS(v *int64) string {
+	if v == nil {
+		return "-"
+	}
+	return fmt.Sprint(*v)
 }
